@@ -286,7 +286,10 @@ def shrink_failure(mod, f):
         for c, o in zip(cands, obs):
             if isinstance(o, dict) and "__crash__" in o:
                 continue
-            fs = [x for x in mod.oracle(c, o) if x[0] == sig]
+            try:
+                fs = [x for x in mod.oracle(c, o) if x[0] == sig]
+            except Exception:  # a shrink candidate may be an ill-formed case: skip it
+                continue
             if fs:
                 cur = {"sig": sig, "msg": fs[0][1], "case": c, "obs": o}
                 improved = True
